@@ -88,7 +88,7 @@ def run_case(case, ctx):
             data[: 2 * w] = np.round(data[: 2 * w] * 2)
             int_head = 2 * w
     int_head = locals().get("int_head", 0)
-    det = PCACD(**kw)
+    det = PCACD(**gen.maybe_numpy(kw, case, ctx))
     sh = Shadow(lambda: PCACDModel(**kw), lambda m: m.state)
     ctx.count("scaling_on_cases" if kw["online_scaling"] else "scaling_off_cases")
     drifts = 0
@@ -192,8 +192,8 @@ def run_periodic(case, ctx):
 
 def run_flag(case, ctx):
     """online_scaling given as a truthy / falsy value that is not the literal True / False (numpy bool, 0 / 1 from a parameter grid):
-    whatever mode the detector takes it for, the run must coincide with the literal-True run or with the literal-False run - never
-    a mixture of the two modes"""
+    the run must coincide with the literal-True run for truthy values and with the literal-False run for falsy ones - never the other
+    mode (a flag silently ignored) and never a mixture of the two modes"""
     rng = gen.rng_for(case["seed"])
     w = int(rng.choice([20, 30]))
     kw = dict(window_size=w, ev_threshold=float(rng.choice([0.8, 0.95, 0.99])), delta=float(rng.choice([0.005, 0.05])),
@@ -216,6 +216,10 @@ def run_flag(case, ctx):
         if t != t_on and t != t_off:
             ctx.violation("C11/online_scaling_mode_mixture", "online_scaling=%r gives a run that equals neither the online_scaling=True run nor the "
                           "online_scaling=False run" % (flag,), params=dict(kw, online_scaling=repr(flag)))
+            return
+        if t_on != t_off and t != (t_on if flag else t_off):
+            ctx.violation("C11/online_scaling_flag_ignored", "online_scaling=%r (a %s value) runs in the %s mode" % (
+                flag, "truthy" if flag else "falsy", "off" if flag else "on"), params=dict(kw, online_scaling=repr(flag)))
             return
     ctx.nontrivial = t_on != t_off
     ctx.sample = {"kind": "online_scaling flag twins", "params": kw, "samples": len(data), "modes_differ": t_on != t_off}
